@@ -757,6 +757,11 @@ def _collect(is_set):
         if isinstance(v, ElemV) and v.role in ("set", "coll", "layer"):
             if is_set:
                 return ElemV(v.var, "set", v.fam, v.cls)
+        if isinstance(v, ElemV) and v.role in ("clause", "cnf") and not is_set:
+            # list(x) of a cached clause / CNF is the same shallow copy as x[:]
+            cp = ElemV(("copy", v.var, interp.fresh_id("cp")), v.role, v.fam, v.cls)
+            interp.log("copy", node, src=v, dst=cp)
+            return cp
         segs = interp.segments(v, node)
         r = interp.alloc(HList(segs, is_set=is_set))
         return r
